@@ -27,6 +27,7 @@ static long answer(void *buf, size_t len, bool tls) {
 extern "C" ssize_t recv(int, void *buf, size_t len, int) { recv_calls++; return answer(buf, len, false); }
 extern "C" int SSL_read(SSL *, void *buf, int num) { sslr_calls++; if (num <= 0) replay_io::fail("R0 SSL_read called with num <= 0"); return (int)answer(buf, (size_t)num, true); }
 extern "C" int SSL_get_error(const SSL *, int) { return last_ssl_err; }
+extern "C" int SSL_pending(const SSL *) { return 0; }      // nothing decrypted and unread inside OpenSSL; the script still holds further records "in the kernel"
 extern "C" unsigned long ERR_get_error(void) { return 0; }
 extern "C" int SSL_shutdown(SSL *) { return 1; }
 extern "C" void SSL_free(SSL *) {}
